@@ -92,6 +92,9 @@ class H2Conn(Peer):
     # ------------------------------------------------------------ transport events
     def on_connect(self, tr):
         self.tr = tr
+        # bytes that travelled to the client on this transport before this HTTP/2 conversation began (a proxy's CONNECT reply,
+        # SOCKS negotiation): "the client has read our frame at offset X" is judged relative to them
+        self.read_base = tr.read_total + len(tr.inbound)
         self.server.conns.append(self)
         if self.server.cfg.get("settings_at_connect"):
             self.send_settings(self._initial_settings())
@@ -144,7 +147,7 @@ class H2Conn(Peer):
         """The concurrency limit the client is bound by: the most recent
         MAX_CONCURRENT_STREAMS whose SETTINGS frame the client has already read
         (RFC: 1 is httpcore's own rule before any SETTINGS arrive)."""
-        read = self.tr.read_total
+        read = self.tr.read_total - getattr(self, "read_base", 0)
         lim = "unset"
         for off, v in self.limit_history:
             if off <= read:
@@ -154,7 +157,7 @@ class H2Conn(Peer):
     def strictest_recent_limit(self):
         """Most permissive reading for the oracle: the client may still act on any limit
         among the last one it has read and every later one (it cannot know more)."""
-        read = self.tr.read_total
+        read = self.tr.read_total - getattr(self, "read_base", 0)
         cur = "unset"
         for off, v in self.limit_history:
             if off <= read:
@@ -322,7 +325,7 @@ class H2Conn(Peer):
         if sid % 2 == 0 or sid <= self.highest_sid:
             self.violations.append(f"bad new stream id {sid} (highest {self.highest_sid})")
         self.highest_sid = max(self.highest_sid, sid)
-        if self.goaway_sent is not None and sid > self.goaway_sent[0] and self.tr.read_total >= self.goaway_sent[1]:
+        if self.goaway_sent is not None and sid > self.goaway_sent[0] and self.tr.read_total - getattr(self, "read_base", 0) >= self.goaway_sent[1]:
             self.violations.append(f"stream {sid} opened after the client read GOAWAY(last_stream_id={self.goaway_sent[0]})")
         s = StreamRec(sid, self.adv[S_INITIAL_WINDOW_SIZE])
         s.send_window = self.client_initial_window
